@@ -10,6 +10,7 @@ CONSTANTS
   NC2 = 4
   NC3 = 2
   AliasBug = FALSE
+  TokSet = "base"
 VIEW View
 INVARIANTS InvExactWins InvLongestPrefix InvDenyOverrides InvDefaultDecides InvMergeOrderFree InvVariantsAgree InvTotal
 CHECK_DEADLOCK FALSE
